@@ -628,3 +628,70 @@ def make_os_shim(fs, real_os):
             return str(p)
 
     return _OsShim()
+
+
+class _Tripwire:
+    """Stands in for a file-system related module or function this model does not
+    cover: using it is reported as a harness limitation, never as a violation."""
+
+    def __init__(self, what):
+        self.__dict__["_what"] = what
+
+    def __getattr__(self, name):
+        raise SimfsUnsupported(f"{self._what}.{name}")
+
+    def __call__(self, *a, **k):
+        raise SimfsUnsupported(f"{self._what}()")
+
+
+def install_seams(mod, fs):
+    """Put the simulated file system behind every file-system name in the globals
+    of `mod`: builtin open, pathlib.Path, os (and things imported from it).  Names
+    bound to modules / functions that are not modelled (shutil, tempfile, glob, io,
+    os-level functions imported by name) become tripwires.  Returns what is needed
+    to undo it."""
+    import builtins  # pylint: disable=import-outside-toplevel
+    import glob as _glob  # pylint: disable=import-outside-toplevel
+    import io as _io  # pylint: disable=import-outside-toplevel
+    import os as _os  # pylint: disable=import-outside-toplevel
+    import pathlib  # pylint: disable=import-outside-toplevel
+    import shutil  # pylint: disable=import-outside-toplevel
+    import tempfile  # pylint: disable=import-outside-toplevel
+
+    missing = object()
+    saved = {}
+    os_shim = make_os_shim(fs, _os)
+    path_cls = make_path_class(fs)
+
+    def put(name, value):
+        saved[name] = mod.__dict__.get(name, missing)
+        setattr(mod, name, value)
+
+    put("open", fs.open)
+    for name, val in list(vars(mod).items()):
+        if name == "open":
+            continue
+        if val is _os:
+            put(name, os_shim)
+        elif val is _os.path:
+            put(name, os_shim.path)
+        elif val is pathlib.Path or val is pathlib.PosixPath or val is pathlib.PurePath:
+            put(name, path_cls)
+        elif val in (shutil, tempfile, _glob, _io, pathlib):
+            put(name, _Tripwire(getattr(val, "__name__", name)))
+        elif val is builtins.open or val is _io.open:
+            put(name, fs.open)
+        elif callable(val) and getattr(val, "__module__", None) in ("posix", "nt", "os", "shutil", "tempfile", "glob", "genericpath", "posixpath"):
+            fn = getattr(os_shim, getattr(val, "__name__", ""), None) if getattr(val, "__module__", None) in ("posix", "nt", "os") else None
+            put(name, fn if callable(fn) and getattr(val, "__name__", "") in ("replace", "rename", "remove", "unlink", "makedirs", "mkdir", "listdir", "scandir", "getcwd", "chdir")
+                else _Tripwire(f"{val.__module__}.{getattr(val, '__name__', name)}"))
+    return saved, missing
+
+
+def remove_seams(mod, saved_missing):
+    saved, missing = saved_missing
+    for name, val in saved.items():
+        if val is missing:
+            mod.__dict__.pop(name, None)
+        else:
+            setattr(mod, name, val)
